@@ -26,6 +26,7 @@ macro_rules! dispatch {
             "C15" => $f(&props::c15::C15, $($arg),*),
             "C16" => $f(&props::c16::C16, $($arg),*),
             "C17" => $f(&props::c17::C17, $($arg),*),
+            "C18" => $f(&props::c18::C18, $($arg),*),
             other => {
                 eprintln!("unknown property id {other}");
                 2
